@@ -2,6 +2,7 @@
 
 pub mod engine;
 pub mod gen;
+pub mod kytea;
 pub mod mirror;
 pub mod oracle;
 pub mod train;
